@@ -333,9 +333,6 @@ def param_list(tier):
 def main(tier: str) -> int:
     rep = report.Report("C10", tier, "fault_enumeration")
     st = explore.dbdfs(("mc.checks.c10", "build"), param_list(tier), 1, budget_s=(80 if tier == "quick" else 1500), split_depth=1)
-    if tier != "quick":
-        # two failures / a failure after a failure (e.g. ERROR then port error), selected workloads
-        st_b = explore.dbdfs(("mc.checks.c10b", "build"), [], 1) if False else None
     for v, params, choices, labels in st.violations:
         rep.add_violation(vkey(v, params), v, {"world": "c10", "params": params, "choices": choices})
     if st.executions < 300 or len(st.signatures) < 15:
